@@ -133,6 +133,17 @@ func UpdateTaskCollectionPosition(taskPositionStore api.MetaStore[*meta.TaskColl
 	if len(positions) > 1 && positions[1].CollectionID > 0 {
 		metaPosition = positions[1]
 	}
+	for _, v := range metaPosition.Positions {
+		if v != nil && v.Dropped {
+			// the drop of the collection has been replicated, the positions of the collection are frozen:
+			// an entry of a channel which had no entry yet must not be added either
+			log.Info("skip update the position of the dropped collection",
+				zap.String("task_id", taskID),
+				zap.Int64("collection_id", collectionID),
+				zap.String("pchannel_name", pChannelName))
+			return nil
+		}
+	}
 	if metaPosition.Positions == nil {
 		metaPosition.Positions = make(map[string]*meta.PositionInfo)
 	}
